@@ -272,6 +272,68 @@ fn program_desc(uni: &[corpus::u::U], program: &[Vec<Op>]) -> Value {
         .collect::<Vec<_>>())
 }
 
+fn program_code(program: &[Vec<Op>]) -> Value {
+    json!(program
+        .iter()
+        .map(|ops| ops.iter().map(|(t, e)| format!("{}:{t}", match e { Entry::Export => "export", Entry::ExportAll => "export_all" })).collect::<Vec<_>>())
+        .collect::<Vec<_>>())
+}
+
+/// Re-execute one recorded schedule (twice) and print the trace and the resulting tree.
+pub fn replay(r: &Value) {
+    let uni = corpus::u::types();
+    let mut scratch = Scratch::new("replay-sched");
+    let wd = scratch.fresh();
+    std::env::set_current_dir(&wd).unwrap();
+    std::env::remove_var("TS_RS_EXPORT_DIR");
+    let singles = universe_singles(&uni).expect("single-type outputs");
+    let program: Vec<Vec<Op>> = r["program"]
+        .as_array()
+        .expect("program")
+        .iter()
+        .map(|ops| {
+            ops.as_array()
+                .unwrap()
+                .iter()
+                .map(|o| {
+                    let (k, t) = o.as_str().unwrap().split_once(':').unwrap();
+                    (t.parse().unwrap(), if k == "export" { Entry::Export } else { Entry::ExportAll })
+                })
+                .collect()
+        })
+        .collect();
+    let schedule: Vec<usize> = r["schedule"].as_array().expect("schedule").iter().map(|x| x.as_u64().unwrap() as usize).collect();
+    let mut model = BTreeSet::new();
+    for ops in &program {
+        for (t, e) in ops {
+            match e {
+                Entry::Export => {
+                    model.insert(*t);
+                }
+                Entry::ExportAll => model.extend(closure_of(&uni, *t)),
+            }
+        }
+    }
+    let expected = expected_tree(&uni, &singles, &model, "bindings/");
+    hooks::set_sched_hook(Some(Arc::new(hook)));
+    for round in 0..2 {
+        match run_one(&uni, &program, &schedule, &mut scratch) {
+            Ok(x) => {
+                let trace: Vec<String> = x.decisions.iter().map(|d| format!("t{}@{}", d.enabled[d.chosen], d.points[d.enabled[d.chosen]])).collect();
+                println!("run {round}: {} scheduling decisions: {}", x.decisions.len(), trace.join(" "));
+                println!("run {round}: results {:?}", x.results);
+                println!("run {round}: tree equals reference model: {}", x.tree == expected);
+                if x.tree != expected {
+                    println!("got: {}", serde_json::to_string_pretty(&x.tree).unwrap());
+                    println!("expected: {}", serde_json::to_string_pretty(&expected).unwrap());
+                }
+            }
+            Err(e) => println!("run {round}: could not replay: {e}"),
+        }
+    }
+    hooks::set_sched_hook(None);
+}
+
 fn programs(uni: &[corpus::u::U], thorough: bool) -> Vec<Vec<Vec<Op>>> {
     let idx = |n: &str| uni.iter().position(|u| u.info.rust.starts_with(n)).unwrap();
     let (a, b, f, g, c, d, l) = (idx("UA"), idx("UB"), idx("UF"), idx("UG"), idx("UC"), idx("UD"), idx("UL"));
@@ -445,7 +507,7 @@ pub fn run(args: &[String]) {
                     .collect();
                 rep.violation(
                     json!({"check": if errs.is_empty() { "final-tree-vs-reference" } else { "export-fails-under-schedule" }}),
-                    json!({"program": pdesc, "preemptions": pre, "schedule": choices, "trace": trace, "errors": errs, "got": x.tree, "expected": expected}),
+                    json!({"program": pdesc, "replay": {"mode": "sched", "program": program_code(program), "schedule": choices}, "preemptions": pre, "schedule": choices, "trace": trace, "errors": errs, "got": x.tree, "expected": expected}),
                 );
             }
             // children
